@@ -71,7 +71,21 @@ impl Agg {
 struct Live {
     pid: u32,
     last_progress_ms: u64,
+    /// CPU time (clock ticks) the worker had consumed when it last reported progress
+    cpu_at_progress: u64,
     killed_by_watchdog: bool,
+}
+
+/// user + system CPU time of a process in clock ticks (100 per second on Linux), 0 if unknown
+fn cpu_ticks(pid: u32) -> u64 {
+    let Ok(s) = std::fs::read_to_string(format!("/proc/{pid}/stat")) else { return 0 };
+    // fields after the command name (which is in parentheses and may contain spaces)
+    let Some(rest) = s.rfind(')').map(|i| &s[i + 1..]) else { return 0 };
+    let f: Vec<&str> = rest.split_whitespace().collect();
+    // rest[0] is the state = field 3; utime = field 14, stime = field 15
+    let ut = f.get(11).and_then(|x| x.parse::<u64>().ok()).unwrap_or(0);
+    let st = f.get(12).and_then(|x| x.parse::<u64>().ok()).unwrap_or(0);
+    ut + st
 }
 
 pub struct WorkerOutcome {
@@ -83,6 +97,8 @@ pub struct WorkerOutcome {
     pub harness_error: Option<String>,
     /// violations announced (V lines) by the case that was running when the worker died
     pub pre_violations: Vec<Violation>,
+    /// result of a minimise worker (M line)
+    pub minimised: Option<Value>,
 }
 
 /// Run one worker subprocess over [from,to), feeding finished cases to `on_case`.
@@ -112,6 +128,7 @@ fn run_one_worker(
         Live {
             pid,
             last_progress_ms: t0.elapsed().as_millis() as u64,
+            cpu_at_progress: 0,
             killed_by_watchdog: false,
         },
     );
@@ -122,10 +139,12 @@ fn run_one_worker(
     let mut last_progress = String::new();
     let mut harness_error = None;
     let mut pre_violations: Vec<Violation> = vec![];
+    let mut minimised: Option<Value> = None;
     for line in reader.lines() {
         let Ok(line) = line else { break };
         if let Some(l) = registry.lock().unwrap().get_mut(&slot) {
             l.last_progress_ms = t0.elapsed().as_millis() as u64;
+            l.cpu_at_progress = cpu_ticks(l.pid);
         }
         let mut it = line.splitn(3, ' ');
         match it.next() {
@@ -144,6 +163,9 @@ fn run_one_worker(
             }
             Some("P") => {
                 last_progress = line[2..].to_string();
+            }
+            Some("M") => {
+                minimised = serde_json::from_str::<Value>(&line[2..]).ok();
             }
             Some("E") => {
                 let case: u64 = it.next().and_then(|c| c.parse().ok()).unwrap_or(0);
@@ -184,6 +206,7 @@ fn run_one_worker(
         last_progress,
         harness_error,
         pre_violations,
+        minimised,
     }
 }
 
@@ -262,7 +285,12 @@ fn spawn_watchdog(
             let now = t0.elapsed().as_millis() as u64;
             let mut reg = registry.lock().unwrap();
             for (_slot, l) in reg.iter_mut() {
-                if !l.killed_by_watchdog && now.saturating_sub(l.last_progress_ms) > watchdog_s * 1000 {
+                // A hang is judged by the CPU time the worker burnt since its last progress line,
+                // not by wall-clock time, so a busy machine cannot turn a slow case into a "hang";
+                // wall-clock time (40x) is only the backstop for a worker that sleeps forever.
+                let burnt = cpu_ticks(l.pid).saturating_sub(l.cpu_at_progress);
+                let stalled_wall = now.saturating_sub(l.last_progress_ms) > watchdog_s * 1000 * 40;
+                if !l.killed_by_watchdog && (burnt > watchdog_s * 100 || stalled_wall) {
                     l.killed_by_watchdog = true;
                     unsafe {
                         libc::kill(l.pid as i32, libc::SIGKILL);
@@ -430,6 +458,38 @@ pub fn run_check(check: &'static dyn Check, tier: Tier, seed: u64, jobs: usize) 
         if let Err(e) = std::fs::write(&path, serde_json::to_string_pretty(&rp).unwrap()) {
             harness_errors.push(format!("cannot write replay {}: {e}", path.display()));
             continue;
+        }
+        // minimise once per signature, in a separate process (a shrink candidate may kill it);
+        // crash replays ("mode": "case") are re-generated from the seed and are not shrunk
+        if rp.get("mode").and_then(|m| m.as_str()) != Some("case") && std::env::var_os("CAOSIM_NO_SHRINK").is_none() {
+            let registry = Arc::new(Mutex::new(BTreeMap::new()));
+            let stop2 = Arc::new(AtomicBool::new(false));
+            let tm = Instant::now();
+            let wd2 = spawn_watchdog(registry.clone(), stop2.clone(), 300, tm);
+            let args = vec!["minimise-worker".to_string(), id.to_string(), path.to_string_lossy().to_string()];
+            let out = run_one_worker(None, &args, 300, &registry, 0, tm, |_c, _v| {});
+            stop2.store(true, Ordering::Relaxed);
+            let _ = wd2.join();
+            if let Some(mut m) = out.minimised {
+                if let Some(o) = m.as_object_mut() {
+                    for k in ["property", "seed", "case", "tier", "expect", "what"] {
+                        if let Some(x) = rp.get(k) {
+                            o.insert(k.to_string(), x.clone());
+                        }
+                    }
+                    o.insert("minimised".into(), json!(true));
+                }
+                let min_path = path.with_extension("min.json");
+                if std::fs::write(&min_path, serde_json::to_string_pretty(&m).unwrap()).is_ok() {
+                    // keep the minimised file only if it reproduces the same signature
+                    let sigs = replay_in_subprocess(id, &min_path, watchdog_s);
+                    if sigs.iter().any(|s| s == &v.sig) {
+                        let _ = std::fs::rename(&min_path, &path);
+                    } else {
+                        let _ = std::fs::remove_file(&min_path);
+                    }
+                }
+            }
         }
         let sigs = replay_in_subprocess(id, &path, watchdog_s);
         if sigs.iter().any(|s| s == &v.sig) {
